@@ -8,6 +8,7 @@ pub mod chainmisc;
 pub mod content;
 pub mod crash;
 pub mod envelope;
+pub mod explorer;
 pub mod inscriptions;
 pub mod pure_ordinals;
 pub mod reorg;
@@ -37,6 +38,7 @@ pub fn dispatch(id: &str) -> Option<fn(&mut Session) -> Meta> {
     "C15" => chainmisc::c15,
     "C16" => chainmisc::c16,
     "C17" => sats::c17,
+    "C18" => explorer::c18,
     "C19" => content::c19,
     "C20" => builder::c20,
     "C25" => runestone::c25,
